@@ -21,6 +21,7 @@ type blob struct {
 	t    types.Type // static/dynamic type of the marshalled value
 	v    value      // deep copy
 	lenT *sym.Term
+	enc  int // 0 = the canonical encoding; n > 0 = another byte encoding of the same content (sv.Reencode)
 }
 
 func blobOf(s []value) *blob {
